@@ -63,14 +63,14 @@ func scenarios() []scen {
 	return []scen{
 		{"no-subnets", "no map at all: the scanner's channel has capacity 0 and only the closer runs", soa + ordinary(3), [2]int{2, 3}},
 		{"one-map-2", "one map, 2 subnets: a single short chunk", subnets("m1", 0, 2) + ordinary(1), [2]int{2, 3}},
-		{"one-map-48", "one map, 48 subnets: 99 range points, one chunk that is not full", subnets("m1", 0, 48), [2]int{1, 2}},
-		{"one-map-48+last", "one map, 48 subnets and the last /24 of the IPv4 space (its end coincides with the end of the implicit IPv4 range): exactly 100 range points, one full chunk and nothing after it", subnets("m1", 0, 48) + "%cc,255.255.255.0/24,m1\n", [2]int{1, 2}},
-		{"one-map-49", "one map, 49 subnets: 101 range points, a full chunk and a chunk of one line", subnets("m1", 0, 49), [2]int{1, 2}},
-		{"one-map-60", "one map, 60 subnets: 123 range points", soa + subnets("m1", 0, 60) + ordinary(2), [2]int{1, 2}},
+		{"one-map-48", "one map, 48 subnets: 99 range points, one chunk that is not full", subnets("m1", 0, 48), [2]int{1, 1}},
+		{"one-map-48+last", "one map, 48 subnets and the last /24 of the IPv4 space (its end coincides with the end of the implicit IPv4 range): exactly 100 range points, one full chunk and nothing after it", subnets("m1", 0, 48) + "%cc,255.255.255.0/24,m1\n", [2]int{1, 1}},
+		{"one-map-49", "one map, 49 subnets: 101 range points, a full chunk and a chunk of one line", subnets("m1", 0, 49), [2]int{1, 1}},
+		{"one-map-60", "one map, 60 subnets: 123 range points", soa + subnets("m1", 0, 60) + ordinary(2), [2]int{0, 1}},
 		{"one-map-120", "one map, 120 subnets: 243 range points, three chunks through a channel of capacity 1 (the producer waits for the consumer)", subnets("m1", 0, 120), [2]int{0, 1}},
 		{"two-maps-2", "two maps of 2 subnets each", subnets("m1", 0, 2) + subnets("m2", 0, 2) + ordinary(1), [2]int{0, 0}},
 		{"three-maps-60", "three maps of 60 subnets each: two chunks per map through a channel of capacity 3", subnets("m1", 0, 60) + subnets("m2", 0, 60) + subnets("m3", 0, 60), [2]int{0, 0}},
-		{"long-pass-through", "40 ordinary lines and two SOA lines (output well beyond the reader's 512-byte buffer) around one map of 60 subnets", soa + ordinary(20) + subnets("m1", 0, 60) + "Zexample.org,ns.example.org,adm.example.org,42\n" + ordinary(20), [2]int{1, 1}},
+		{"long-pass-through", "40 ordinary lines and two SOA lines (output well beyond the reader's 512-byte buffer) around one map of 60 subnets", soa + ordinary(20) + subnets("m1", 0, 60) + "Zexample.org,ns.example.org,adm.example.org,42\n" + ordinary(20), [2]int{0, 1}},
 	}
 }
 
